@@ -31,6 +31,7 @@ class Recorder:
     def __init__(self):
         self.events = []
         self.clock = None  # callable returning simulated time or None
+        self.pre_backend = None  # callable run at the entry of every public backend call
 
     def ev(self, kind, **payload):
         if self.clock is not None:
@@ -89,6 +90,8 @@ class Recorder:
 
         def mk(name, orig):
             def w(*a, **k):
+                if rec.pre_backend is not None and name in rec.BACK:
+                    rec.pre_backend()
                 info = rec._back_args(name, a, k)
                 rec.ev("b." + name + ".call", **info)
                 try:
@@ -249,20 +252,40 @@ def scripted_time_keeper(script_seed, mode):
     from syne_tune.backend.simulator_backend.time_keeper import SimulatedTimeKeeper
 
     class ScriptedTimeKeeper(SimulatedTimeKeeper):
+        """The wall clock under ``mark_exit`` / ``real_time_since_last_recent_exit`` is scripted: it only moves
+        when the harness calls ``tick()`` (at the entry of every backend call = time spent in the tuner loop
+        and scheduler since the backend was left). ``charges`` records (value handed out, wall time that passed
+        since the previous hand-out): outside time is charged once iff the two agree."""
+
         def __init__(self):
+            self._wall = 0.0
+            self._since_charge = 0.0
             super().__init__()
             self._rng = random.Random(script_seed)
             self.outside = []  # every value handed out
+            self.charges = []
+            self.ticks = 0
 
-        def real_time_since_last_recent_exit(self):
-            self._assert_has_started()
+        def tick(self):
             if mode == "zero":
                 v = 0.0
             elif mode == "small":
                 v = self._rng.uniform(0.0, 0.02)
             else:  # "large": comparable to an epoch
                 v = self._rng.choice([0.0, 0.0, self._rng.uniform(0.0, 2.0)])
+            self._wall += v
+            self._since_charge += v
+            self.ticks += 1
+
+        def mark_exit(self):
+            self._last_recent_exit = self._wall
+
+        def real_time_since_last_recent_exit(self):
+            self._assert_has_started()
+            v = self._wall - self._last_recent_exit
             self.outside.append(v)
+            self.charges.append((v, self._since_charge))
+            self._since_charge = 0.0
             return v
 
     return ScriptedTimeKeeper()
@@ -364,6 +387,16 @@ def failing_backend_class():
                 return Status.failed, results[: max(0, min(keep, len(results)))]
             return status, results
 
+        recorder = None
+
+        def _process_complete_event(self, *a, **k):
+            # ground truth "the simulated job has ended by itself" (not: was stopped / paused by the tuner)
+            status = k.get("status", a[2] if len(a) > 2 else None)
+            trial_id = k.get("trial_id", a[0] if a else None)
+            if self.recorder is not None and status in (Status.completed, Status.failed):
+                self.recorder.ev("w.job_end", trial=trial_id, run=self.run_no.get(trial_id, 1) - 1, status=str(status).lower())
+            return super()._process_complete_event(*a, **k)
+
     return FailingBackend
 
 
@@ -436,6 +469,8 @@ class SimRun:
         self.rec.clock = lambda: self.backend._time_keeper._current_time
         self.rec.wrap_scheduler(self.scheduler)
         self.rec.wrap_backend(self.backend, extra=("_run_job_and_collect_results",))
+        self.backend.recorder = self.rec
+        self.rec.pre_backend = self.backend._time_keeper.tick
         self.sim_cb = SimulatorCallback()
         stop = StoppingCriterion(**p["stop"])
         self.tuner = Tuner(
@@ -559,6 +594,9 @@ class FakeProc:
                 self.done_since += 1
             if self.done_since >= self.exit_lag:
                 self.returncode = self.exit_code
+                if self.backend.recorder is not None:
+                    self.backend.recorder.ev("w.job_end", trial=self.trial_id, run=self.run_no,
+                                             status="completed" if self.exit_code == 0 else "failed")
 
     def _emit(self, level, late=False):
         rec = self.backend.emit(self.trial_id, self.run_no, level, late)
